@@ -704,8 +704,10 @@ class Core:
             if isinstance(t, ast.Name) and isinstance(value, ast.Call) and ast.unparse(value.func) in self.opaque_text:
                 if not self.heap:
                     raise Untranslatable(f"{where()}: opaque call {ast.unparse(value.func)}")
-                args = ", ".join([self.expr(a, ctx) for a in value.args] + [self.expr(kw.value, ctx) for kw in value.keywords])
-                return (pad + f"Py.H.call ext {lean_str(self.opaque_text[ast.unparse(value.func)])} [{args}] env effs fun v_{t.id} env effs =>\n"
+                spec = self.opaque_text[ast.unparse(value.func)]
+                args = "" if isinstance(spec, tuple) else ", ".join([self.expr(a, ctx) for a in value.args] + [self.expr(kw.value, ctx) for kw in value.keywords])
+                spec = spec[0] if isinstance(spec, tuple) else spec
+                return (pad + f"Py.H.call ext {lean_str(spec)} [{args}] env effs fun v_{t.id} env effs =>\n"
                         + self.block(rest, k, ctx, ind))
             if isinstance(t, ast.Name):
                 if isinstance(value, ast.Call):
@@ -757,8 +759,10 @@ class Core:
         if isinstance(s, ast.Expr) and isinstance(s.value, ast.Call) and ast.unparse(s.value.func) in self.opaque_text:
             if not self.heap:
                 raise Untranslatable(f"{where()}: opaque call {ast.unparse(s.value.func)}")
-            args = ", ".join([self.expr(a, ctx) for a in s.value.args] + [self.expr(kw.value, ctx) for kw in s.value.keywords])
-            return (pad + f"Py.H.call ext {lean_str(self.opaque_text[ast.unparse(s.value.func)])} [{args}] env effs fun _ env effs =>\n"
+            spec = self.opaque_text[ast.unparse(s.value.func)]
+            args = "" if isinstance(spec, tuple) else ", ".join([self.expr(a, ctx) for a in s.value.args] + [self.expr(kw.value, ctx) for kw in s.value.keywords])
+            spec = spec[0] if isinstance(spec, tuple) else spec
+            return (pad + f"Py.H.call ext {lean_str(spec)} [{args}] env effs fun _ env effs =>\n"
                     + self.block(rest, k, ctx, ind))
         if isinstance(s, ast.Expr) and isinstance(s.value, ast.Call):
             call = s.value
